@@ -638,23 +638,37 @@ func (u *Upstream) ackOrDone(ctx context.Context) <-chan *message.UpstreamChunkA
 }
 
 func (u *Upstream) readAckLoop(ctx context.Context) {
-	go u.readResultLoop(ctx)
-	go u.readAliasLoop(ctx)
-
+	// The two dispatch goroutines belong to this incarnation of the stream's loops: they get this
+	// incarnation's channels (resume replaces the fields) and are waited for, so that neither of them
+	// can still be running - with a cancelled context - when the next incarnation has started.
+	u.mu.RLock()
+	aliasCh, resCh := u.aliasCh, u.resCh
+	u.mu.RUnlock()
+	var wg sync.WaitGroup
+	wg.Add(2)
+	go func() {
+		defer wg.Done()
+		u.readResultLoop(ctx, resCh)
+	}()
+	go func() {
+		defer wg.Done()
+		u.readAliasLoop(ctx, aliasCh)
+	}()
+	defer wg.Wait()
 	defer func() {
 		u.mu.Lock()
-		close(u.aliasCh)
-		close(u.resCh)
+		close(aliasCh)
+		close(resCh)
 		u.mu.Unlock()
 	}()
 
 	for ack := range u.ackOrDone(ctx) {
-		u.aliasCh <- ack.DataIDAliases
-		u.resCh <- ack.Results
+		aliasCh <- ack.DataIDAliases
+		resCh <- ack.Results
 	}
 }
 
-func (u *Upstream) readResultLoop(ctx context.Context) {
+func (u *Upstream) readResultLoop(ctx context.Context, resCh <-chan []*message.UpstreamChunkResult) {
 	defer func() {
 		u.mu.Lock()
 		defer u.mu.Unlock()
@@ -663,7 +677,7 @@ func (u *Upstream) readResultLoop(ctx context.Context) {
 		}
 		u.upstreamChunkResultChs = make(map[uint32]chan *message.UpstreamChunkResult)
 	}()
-	for v := range u.resCh {
+	for v := range resCh {
 		for _, vv := range v {
 			vv := vv
 
@@ -685,11 +699,8 @@ func (u *Upstream) readResultLoop(ctx context.Context) {
 	}
 }
 
-func (u *Upstream) readAliasLoop(ctx context.Context) {
+func (u *Upstream) readAliasLoop(ctx context.Context, aliasCh <-chan map[uint32]*message.DataID) {
 	for {
-		u.mu.RLock()
-		aliasCh := u.aliasCh
-		u.mu.RUnlock()
 		if aliasCh == nil {
 			return
 		}
